@@ -271,6 +271,10 @@ class Check:
                   assumptions=self.assumptions, wall_s=round(time.time() - self.t0, 2), violations=nv)
         with open(os.path.join(EVID, self.prop + '.json'), 'w') as f:
             json.dump(ev, f, indent=1, default=str)
+        # evidence/<id>.json holds the latest run of either tier; a copy per tier is kept beside it
+        os.makedirs(os.path.join(EVID, self.tier), exist_ok=True)
+        with open(os.path.join(EVID, self.tier, self.prop + '.json'), 'w') as f:
+            json.dump(ev, f, indent=1, default=str)
         print('%s %s: evaluations=%s distinct_nontrivial=%s violations=%d wall=%.1fs' % (
             self.prop, self.tier, cov.get('evaluations'), cov.get('distinct_nontrivial'), nv, time.time() - self.t0))
         return 1 if nv else 0
